@@ -252,7 +252,7 @@ Print Assumptions C19_debug_release_agree_outside_class.
 From Dashu Require Import Int.RingSpec Int.RingOps Int.RingOpsProofs Int.RingDispatchProofs Int.RingTop Int.RingMulW Int.RingOpsW Int.DivContracts Int.DivSrcInst Int.DivWordInst.
 From Dashu Require Import Int.BitsSpec Int.BitsKernels Int.BitsKernelsBase Int.BitsSignedProofs Int.IoSpec Int.IoModel Int.ModRingModel Int.GrlSpec Int.GrlModel Int.GrlKsqrt.
 From Dashu Require Import Float.Contract Float.FloatOrdModel Float.AddModel Float.TextIoSpec Float.TextIoModel Conv.ConvSpec Conv.ConvModel.
-From Dashu Require Import Serde.WordSizeKernels Serde.WordSizeKernels2 Serde.WordRuns Serde.EstimatorIndependence Serde.JsonModel Serde.JsonProofs.
+From Dashu Require Import Serde.WordRunsModel Serde.WordSizeKernels Serde.WordSizeKernels2 Serde.WordRuns Serde.EstimatorIndependence Serde.JsonModel Serde.JsonProofs.
 
 (** mul::multiply over the word-level kernels (schoolbook, Karatsuba, the slice-by-slice Toom-3), thresholds of the source counted in words *)
 Theorem C19_multiply_word_level_ws_independent :
